@@ -1,250 +1,3 @@
-(** Proofs about the Issuance LTS (Model.v). *)
-From Coq Require Import List Bool Arith Lia.
-From CM Require Import Issuance.Model.
-Import ListNotations.
-
-(** * Lists *)
-Lemma nth_upd_eq {A} (l : list A) n x : n < length l -> nth_error (upd l n x) n = Some x.
-Proof. revert n; induction l as [|a l IH]; intros [|n] H; simpl in *; try lia; auto. apply IH; lia. Qed.
-Lemma nth_upd_neq {A} (l : list A) n m x : n <> m -> nth_error (upd l n x) m = nth_error l m.
-Proof. revert n m; induction l as [|a l IH]; intros [|n] [|m] H; simpl; auto; try congruence. Qed.
-Lemma length_upd {A} (l : list A) n x : length (upd l n x) = length l.
-Proof. revert n; induction l as [|a l IH]; intros [|n]; simpl; auto. Qed.
-Lemma nth_upd {A} (l : list A) n m x y :
-  nth_error (upd l n x) m = Some y -> (n = m /\ y = x /\ n < length l) \/ (n <> m /\ nth_error l m = Some y).
-Proof.
-  intros H. destruct (Nat.eq_dec n m) as [->|Hne].
-  - left. assert (m < length l).
-    { rewrite <- (length_upd l m x). apply nth_error_Some. congruence. }
-    rewrite nth_upd_eq in H by auto. split; auto. split; auto. congruence.
-  - right. rewrite nth_upd_neq in H; auto.
-Qed.
-
-Lemma skey_eqb_eq a b : skey_eqb a b = true <-> a = b.
-Proof.
-  destruct a as [n k| |], b as [m j| |]; simpl; try (split; congruence).
-  - rewrite andb_true_iff, Nat.eqb_eq. destruct k, j; simpl; split; intros H; try (destruct H; congruence); try (inversion H; auto); try discriminate.
-  - rewrite Nat.eqb_eq. split; congruence.
-Qed.
-Lemma skey_eqb_refl a : skey_eqb a a = true. Proof. apply skey_eqb_eq; auto. Qed.
-Lemma sput_eq s k v : sput s k v k = v. Proof. unfold sput; rewrite skey_eqb_refl; auto. Qed.
-Lemma sput_neq s k v k' : k <> k' -> sput s k v k' = s k'.
-Proof. unfold sput; intros H. destruct (skey_eqb k k') eqn:E; auto. apply skey_eqb_eq in E; congruence. Qed.
-Lemma lput_eq l k v : lput l k v k = v. Proof. unfold lput; rewrite Nat.eqb_refl; auto. Qed.
-Lemma lput_neq l k v k' : k <> k' -> lput l k v k' = l k'.
-Proof. unfold lput; intros H. destruct (Nat.eqb_spec k k'); congruence. Qed.
-
-(** * Runs *)
-Lemma step_inv s l s' e :
-  step s l = Some (s', e) ->
-  exists th th' sh', nth_error (thr s) (l_tid l) = Some th /\
-    tstep (l_tid l) th (sh s) (l_fault l) (l_bit l) = Some (th', sh', e) /\
-    s' = State (upd (thr s) (l_tid l) th') sh'.
-Proof.
-  unfold step. destruct (nth_error (thr s) (l_tid l)) as [th|] eqn:E; [|discriminate].
-  destruct (tstep _ _ _ _ _) as [[[th' sh'] e']|] eqn:T; [|discriminate].
-  intros H; inversion H; subst. eauto 10.
-Qed.
-
-(** runs all of whose steps satisfy [ok] (a restriction on schedules / fault plans) *)
-Inductive runs (ok : state -> label -> Prop) : state -> list ev -> state -> Prop :=
-| runs_nil s : runs ok s [] s
-| runs_cons s l s1 e es s2 : ok s l -> step s l = Some (s1, e) -> runs ok s1 es s2 -> runs ok s (e :: es) s2.
-
-Definition any_label (s : state) (l : label) : Prop := True.
-Definition reachable_from (s0 s : state) : Prop := exists es, runs any_label s0 es s.
-Definition reachable (cs : list tcfg) (st : skey -> option value) (s : state) : Prop :=
-  reachable_from (init_state cs st) s.
-
-Lemma runs_inv (ok : state -> label -> Prop) (I : state -> Prop) :
-  (forall s l s' e, I s -> ok s l -> step s l = Some (s', e) -> I s') ->
-  forall s es s', runs ok s es s' -> I s -> I s'.
-Proof. intros Hs s es s' R; induction R; auto. intros; apply IHR; eauto. Qed.
-
-Lemma runs_weaken (ok ok' : state -> label -> Prop) s es s' :
-  (forall s l, ok s l -> ok' s l) -> runs ok s es s' -> runs ok' s es s'.
-Proof. intros H R; induction R; econstructor; eauto. Qed.
-
-Lemma runs_app (ok : state -> label -> Prop) s es s1 es' s2 : runs ok s es s1 -> runs ok s1 es' s2 -> runs ok s (es ++ es') s2.
-Proof. intros R; induction R; simpl; auto. intros; econstructor; eauto. Qed.
-
-Lemma run_runs s ls s' es : run s ls = Some (s', es) -> runs any_label s es s'.
-Proof.
-  revert s s' es; induction ls as [|l ls IH]; simpl; intros s s' es H.
-  - inversion H; constructor.
-  - destruct (step s l) as [[s1 e]|] eqn:E; [|discriminate].
-    destruct (run s1 ls) as [[s2 es2]|] eqn:R; [|discriminate]. inversion H; subst.
-    econstructor; eauto. exact I.
-Qed.
-
-(** * Thread-level case analysis *)
-(* destruct an innermost scrutinee (one that contains no other match) *)
-Ltac break_match_hyp H :=
-  match type of H with
-  | context [match ?x with _ => _ end] =>
-      lazymatch x with
-      | context [match _ with _ => _ end] => fail
-      | _ => destruct x eqn:?
-      end
-  end.
-Ltac inv_some H := inversion H; subst; clear H.
-
-Ltac brk H := repeat (break_match_hyp H; simpl in H; try discriminate H).
-(** unfold one thread step completely: every case of pc, fault, storage / lock look-up and of
-    the continuation helpers.  Use after [destruct th; destruct (pc)]. *)
-Ltac tstep_full H :=
-  unfold tstep, norm_pc, mark, body_start in H; simpl in H; brk H;
-  try (unfold exec, fresh_key, body_start in H; simpl in H; brk H);
-  unfold panic_goto in H; simpl in H; brk H;
-  unfold fin_op, after_attempt, start_renew, start_obtain, body_start, after_pre,
-    set_pc, set_cur, set_lkey, set_lcrt, set_nk, set_nc, set_seen, set_recd, is_async, with_sto, with_lks in H; simpl in H;
-  brk H.
-Ltac tstep_start H th :=
-  let c := fresh "c" in let p := fresh "p" in
-  destruct th as [c p ? ? ? ? ? ? ? ? ?]; destruct p.
-
-Lemma tstep_cfg t th s f b th' s' e :
-  tstep t th s f b = Some (th', s', e) -> cfg th' = cfg th.
-Proof. intros H. tstep_start H th. all: tstep_full H. all: inv_some H; reflexivity. Qed.
-
-Lemma tstep_tid t th s f b th' s' e :
-  tstep t th s f b = Some (th', s', e) -> e_tid e = t.
-Proof. intros H. tstep_start H th. all: tstep_full H. all: inv_some H; reflexivity. Qed.
-
-(** * Lock discipline (thread level) *)
-(** the Unlock call of the label fails: an injected error or panic at the deferred release *)
-Definition unlock_fault_th (th : thread) (f : fault) (b : bool) : bool :=
-  match norm_pc (mark th f) b with
-  | Some (PUnlock _) => fault_eqb f FErr || fault_eqb f FPanic
-  | _ => false
-  end.
-
-Inductive lock_effect (t : nat) (th th' : thread) (s s' : shared) (f : fault) (b : bool) : Prop :=
-| le_neutral : lks s' = lks s -> recd th' = recd th -> locked (tpc th') = locked (tpc th) -> lock_effect t th th' s s' f b
-| le_acquire : tpc th = PLockWait -> lks s (c_lk (cfg th)) = None ->
-    lks s' = lput (lks s) (c_lk (cfg th)) (Some t) -> recd th' = true -> locked (tpc th') = true ->
-    lock_effect t th th' s s' f b
-| le_release : locked (tpc th) = true -> locked (tpc th') = false -> lks s (c_lk (cfg th)) = Some t ->
-    lks s' = lput (lks s) (c_lk (cfg th)) None -> recd th' = false -> unlock_fault_th th f b = false ->
-    lock_effect t th th' s s' f b
-| le_failed : locked (tpc th) = true -> locked (tpc th') = false -> lks s' = lks s -> recd th' = recd th ->
-    (unlock_fault_th th f b = true \/ lks s (c_lk (cfg th)) <> Some t) ->
-    lock_effect t th th' s s' f b.
-
-Lemma tstep_lock_effect t th s f b th' s' e :
-  tstep t th s f b = Some (th', s', e) -> lock_effect t th th' s s' f b.
-Proof.
-  intros H. destruct th as [c p ? ? ? ? ? ? ? ? ?]. destruct p.
-  all: tstep_full H. all: inv_some H.
-  all: try (apply le_neutral; reflexivity).
-  all: try (apply le_acquire; simpl; auto; fail).
-  all: try (apply le_release; simpl; auto;
-            try (match goal with E : Nat.eqb _ _ = true |- _ => apply Nat.eqb_eq in E; subst; auto end);
-            unfold unlock_fault_th, norm_pc, mark; simpl in *;
-            repeat match goal with E : _ = true |- _ => rewrite E end; auto; fail).
-  all: try (apply le_failed; simpl; auto;
-            try (right; intros X; rewrite X in *; try discriminate;
-                 match goal with E : Some _ = Some _ |- _ => inversion E; subst end;
-                 rewrite Nat.eqb_refl in *; discriminate); fail).
-  all: try (apply le_failed; simpl; auto; left; unfold unlock_fault_th, norm_pc, mark; simpl in *;
-            repeat match goal with E : _ = true |- _ => rewrite E end; auto; fail).
-Qed.
-(** * Storage frame (thread level) *)
-Definition writes_pc (p : pc) (j : kind) : Prop :=
-  p = PSave j \/ p = PRoll j \/ (p = PAStore /\ j = KMeta).
-
-Lemma tstep_sto_effect t th s f b th' s' e :
-  tstep t th s f b = Some (th', s', e) ->
-  sto s' = sto s \/
-  exists k v, sto s' = sput (sto s) k v /\
-    (k = RW t \/ k = SLast \/ exists j, k = SK (c_vk (cfg th)) j /\ writes_pc (tpc th) j).
-Proof.
-  intros H. destruct th as [c p ? ? ? ? ? ? ? ? ?]. destruct p.
-  all: tstep_full H. all: inv_some H. all: try (left; reflexivity).
-  all: right; eexists; eexists; split; [reflexivity|]; simpl; auto.
-  all: try (right; right; eexists; split; [reflexivity|]; unfold writes_pc; auto; fail).
-Qed.
-(** * Progress (thread level) *)
-Lemma tstep_enabled t th s :
-  final_pc (tpc th) = false -> tpc th <> PLockWait ->
-  exists r, tstep t th s FNone true = Some r.
-Proof.
-  intros Hf Hw. destruct th as [c p cu ? ? ? ? ? ? ? ?]. destruct p; simpl in *; try discriminate; try congruence.
-  all: unfold tstep, norm_pc, mark, body_start; simpl.
-  all: try (unfold exec; simpl; repeat match goal with |- context [match ?x with _ => _ end] =>
-         lazymatch x with context [match _ with _ => _ end] => fail | _ => destruct x eqn:? end end; eauto; fail).
-  all: destruct cu; simpl; try destruct (c_prog c); try destruct interval; simpl.
-  all: try (unfold exec; simpl; repeat match goal with |- context [match ?x with _ => _ end] =>
-         lazymatch x with context [match _ with _ => _ end] => fail | _ => destruct x eqn:? end end; eauto; fail).
-Qed.
-
-Lemma tstep_lockwait_enabled t th s :
-  tpc th = PLockWait -> lks s (c_lk (cfg th)) = None -> exists r, tstep t th s FNone true = Some r.
-Proof.
-  intros Hp Hl. destruct th as [c p cu ? ? ? ? ? ? ? ?]; simpl in *; subst.
-  unfold tstep, norm_pc, mark; simpl. unfold exec; simpl. rewrite Hl. eauto.
-Qed.
-
-(** * Termination measure for the programs without a retry loop *)
-Definition rank (p : pc) : nat :=
-  match p with
-  | PPre KCrt => 40 | PPre KKey => 39 | PPre KMeta => 38
-  | PChkS => 36 | PChkL => 35 | PChkD _ => 34 | PLockCall => 33 | PLockWait => 32
-  | PRe KCrt => 31 | PRe KKey => 30 | PRe KMeta => 29
-  | PLd KKey => 31 | PLd KCrt => 30 | PLd KMeta => 29
-  | PEmit1 => 28 | PReuse => 27 | PIssS => 26 | PIssE => 25 | PEmitF _ => 24
-  | PSave KKey => 23 | PSave KCrt => 22 | PSave KMeta => 21
-  | PRoll KCrt => 20 | PRoll _ => 19 | PEmit2 => 20
-  | PCLoad => 31 | PCBody => 30 | PCStore => 29
-  | PALoad1 => 31 | PAGet => 30 | PALoad2 => 29 | PAStore => 28
-  | PWait => 32
-  | PUnlock _ => 10
-  | PMLd Ph0 KKey => 120 | PMLd Ph0 KCrt => 119 | PMLd Ph0 KMeta => 118 | PMOcsp Ph0 => 116 | PMEmit Ph0 => 115
-  | PMLd _ KKey => 50 | PMLd _ KCrt => 49 | PMLd _ KMeta => 48 | PMOcsp _ => 47 | PMEmit _ => 46
-  | PDone _ => 0
-  end.
-Definition is_mpc (p : pc) : bool := match p with PMLd _ _ | PMOcsp _ | PMEmit _ | PDone _ => true | _ => false end.
-Definition rem (th : thread) : nat :=
-  (match c_prog (cfg th) with PManage => if is_mpc (tpc th) then 0 else 60 | _ => 0 end) + rank (tpc th).
-(** programs whose every path is finite: no doWithRetry loop, no CleanStorage body *)
-Definition finite_prog (c : tcfg) : bool :=
-  match c_prog c with PObtain false | PRenew false | PManage | PAri _ => true | _ => false end.
-
-(** thread-local consistency of program, current operation and program counter *)
-Definition mpc (p : pc) : bool := match p with PMLd _ _ | PMOcsp _ | PMEmit _ | PCLoad | PCBody | PCStore => true | _ => false end.
-Definition cpc (p : pc) : bool := match p with PMLd _ _ | PMOcsp _ | PMEmit _ => true | _ => false end.
-Definition twf (th : thread) : Prop :=
-  match c_prog (cfg th) with
-  | PObtain _ => cur th = OpObtain /\ mpc (tpc th) = false
-  | PRenew _ => cur th = OpRenew /\ mpc (tpc th) = false
-  | PClean _ => cur th = OpClean /\ cpc (tpc th) = false
-  | PAri _ => cur th = OpAri /\ mpc (tpc th) = false
-  | PManage => (cur th = OpObtain \/ cur th = OpRenew) /\ match tpc th with PCLoad | PCBody | PCStore => False | _ => True end
-  end.
-
-Lemma twf_init c : twf (init_thread c).
-Proof. unfold twf, init_thread, entry, after_pre; simpl. destruct (c_prog c); simpl; auto; destruct (c_chk c); auto. Qed.
-
-Lemma tstep_twf t th s f b th' s' e :
-  twf th -> tstep t th s f b = Some (th', s', e) -> twf th'.
-Proof.
-  intros Hwf H. destruct th as [c p cu ? ? ? ? ? ? ? ?]. destruct p.
-  all: tstep_full H. all: inv_some H. all: unfold twf in *; simpl in *.
-  all: repeat match goal with E : c_prog _ = _ |- _ => rewrite E in *; clear E end; simpl in *; auto.
-  all: try (destruct (c_prog c); simpl in *; intuition (auto; discriminate)).
-  all: try (intuition (auto; discriminate)).
-Qed.
-
-Lemma tstep_rem t th s f b th' s' e :
-  twf th -> finite_prog (cfg th) = true -> tstep t th s f b = Some (th', s', e) -> rem th' < rem th.
-Proof.
-  intros Hwf Hfin H. destruct th as [c p cu ? ? ? ? ? ? ? ?]. unfold finite_prog in Hfin; unfold twf in Hwf; simpl in Hfin, Hwf.
-  destruct p.
-  all: tstep_full H. all: inv_some H.
-  all: unfold rem; simpl.
-  all: repeat match goal with j : kind |- _ => destruct j | p : phase |- _ => destruct p end; simpl in *; try discriminate.
-  all: repeat match goal with E : Some _ = Some _ |- _ => inversion E; subst; clear E end.
-  all: repeat match goal with E : c_prog _ = _ |- _ => rewrite E in *; clear E end; simpl in *; try discriminate; try lia.
-  all: try (destruct (c_prog c) as [[|]|[|]| | |]; simpl in *; try discriminate; try lia; intuition (try discriminate; try lia)).
-  all: try (intuition (try discriminate; try lia); fail).
-Qed.
+(** Proofs about the Issuance LTS (Model.v): thread-level lemmas, one file per lemma family so
+    that the case analyses build in parallel. *)
+From CM Require Export Issuance.Base Issuance.LockEffect Issuance.StoEffect Issuance.Twf Issuance.Progress.
